@@ -6,7 +6,7 @@ rows = []
 for mp in sorted(glob.glob(os.path.join(V, "seeded", "C*", "meta.json"))):
     m = json.load(open(mp))
     pid = os.path.basename(os.path.dirname(mp))
-    rnd = {"": "1", "r2": "2", "r3": "3"}.get(pid.partition("-")[2], "?")
+    rnd = {"": "1", "r2": "2", "r3": "3", "r4": "4"}.get(pid.partition("-")[2], "?")
     valid = bool(m.get("demo_passes_on_clean") and m.get("demo_fails_on_patched") and m.get("existing_tests_pass"))
     ck = m.get("checks", {})
     det = "; ".join("%s: exit %s, %s VIOLATION lines" % (k, v["exit"], v["violation_lines"]) for k, v in ck.items())
@@ -24,7 +24,7 @@ with open(os.path.join(V, "seeded", "SUMMARY.md"), "w") as f:
     f.write("| seed | round | seed confirmed | detected | current checks | change | needs | first evaluation | history |\n|---|---|---|---|---|---|---|---|---|\n")
     for r in rows:
         f.write("| %s | %s | %s | %s | %s | %s | %s | %s | %s |\n" % (r[0], r[1], "yes" if r[2] else "NO", r[3], r[4], r[5], r[6], r[7], r[8]))
-    for rnd in ("1", "2", "3"):
+    for rnd in ("1", "2", "3", "4"):
         rr = [r for r in rows if r[1] == rnd]
         if rr:
             f.write("\nRound %s: %d seeds, %d confirmed as valid, %d detected at the first run, %d detected by the current checks (of %d re-checked).\n" % (
